@@ -2,6 +2,7 @@
 from __future__ import annotations
 
 import threading
+import time
 
 import gen_hist
 import impl
@@ -17,7 +18,7 @@ RULE = (
     "calls, provider updates, recursion and nesting of checked calls; after every history the provider mappings and the attributes of the "
     "shared annotation objects are compared with what they were. The model's verdict for each call is the FRESH verdict (declaration, "
     "values, provider values at that moment), so any dependence on history is a disagreement. Threads: 8 threads x 150 calls through "
-    "shared decorated functions behind a barrier; each thread's verdict vector must equal its sequential vector. "
+    "shared decorated functions behind a barrier (one of them behind a provider whose sizes yield to other threads in the middle of every evaluation); each thread's verdict vector must equal its sequential vector. "
     "One decorator object applied to two definitions with a same-named field (NamedTuple, dataclass, function) vs a decorator object each; a "
     "forward reference unresolved at decoration and at the first call, resolved later, vs the same function not called early. "
     "non-trivial = distinct history with >=2 calls"
@@ -196,13 +197,38 @@ def custom(run, tier):
         def get_dltype_scope(self):
             return {"k": 3}
 
-    @dltype.dltyped()
-    def f(x: T, y: U | None = None) -> T:
-        return x
+    class YieldInt(int):
+        """an integer whose arithmetic gives other threads a turn: a thread switch in the middle of evaluating a dimension
+        expression, forced instead of hoped for"""
 
-    @dltype.dltyped(P())
-    def g(x: Annotated[np.ndarray, dltype.FloatTensor["a k"]]) -> None:
-        return None
+        def _y(self, r):
+            time.sleep(0.0002)
+            return r
+
+        def __add__(self, o):
+            return self._y(int(self) + int(o))
+
+        __radd__ = __add__
+
+        def __mul__(self, o):
+            return self._y(int(self) * int(o))
+
+        __rmul__ = __mul__
+
+    class PY:
+        def get_dltype_scope(self):
+            return {"k": YieldInt(3)}
+
+    # (built with exec: this module postpones the evaluation of annotations, so hints naming locals of this function could not be
+    # resolved and the functions would run UNCHECKED — which is what this test did until a seeded change showed it to be vacuous)
+    ns = {"dltype": dltype, "np": np, "Annotated": Annotated, "T": T, "U": U, "P": P, "PY": PY}
+    exec(compile(
+        "@dltype.dltyped()\ndef f(x: T, y: U | None = None) -> T:\n    return x\n"
+        "@dltype.dltyped(P())\ndef g(x: Annotated[np.ndarray, dltype.FloatTensor['a k']]) -> None:\n    return None\n"
+        # (the yielding product has `a` waiting on the operand stack)
+        "@dltype.dltyped(PY())\ndef h(x: Annotated[np.ndarray, dltype.FloatTensor['a k+1 a+k*2']]) -> None:\n    return None\n",
+        "<threads>", "exec", dont_inherit=True), ns)  # noqa: S102
+    f, g, h = ns["f"], ns["g"], ns["h"]
 
     rng = run.rng
     nthreads, ncalls = (8, 150) if tier == "quick" else (16, 600)
@@ -211,8 +237,12 @@ def custom(run, tier):
         plan = []
         for _ in range(ncalls):
             a, b = rng.choice([1, 2, 3]), rng.choice([1, 2, 3])
-            kind = rng.randrange(4)
-            if kind == 0:
+            kind = rng.randrange(6)
+            if kind == 4:
+                plan.append(("h", (np.zeros((a, 4, 6 + a), np.float32),)))
+            elif kind == 5:
+                plan.append(("h", (np.zeros((a, 4, 5 + a), np.float32),)))
+            elif kind == 0:
                 plan.append(("f", (np.zeros((a, b), np.float32), np.zeros((b, a + b), np.float32))))
             elif kind == 1:
                 plan.append(("f", (np.zeros((a, b), np.float32), np.zeros((b + 1, a + b), np.float32))))
@@ -224,7 +254,7 @@ def custom(run, tier):
 
     def verdict(name, args):
         try:
-            (f if name == "f" else g)(*args)
+            {"f": f, "g": g, "h": h}[name](*args)
             return "ok"
         except dltype.DLTypeError as e:
             return impl.show_report(e)
@@ -260,6 +290,9 @@ def custom(run, tier):
                 if bad <= 3:
                     run.findings.append(Finding("failing-input", f"thread {i} call {j}: concurrent verdict {b!r} differs from the sequential verdict {a!r}",
                                                 Case(f"THREADS\t{nthreads}\t{ncalls}\tseed={run.seed}", "threads"), b, a, ""))
+    import collections
+
+    run.coverage["thread_verdict_kinds"] = dict(collections.Counter(" ".join(v.split(" ")[:2]) for seq in sequential for v in seq))
     run.coverage["thread_calls"] = nthreads * ncalls
     run.coverage["thread_verdict_mismatches"] = bad
     run.dist["threads:calls"] += nthreads * ncalls
